@@ -30,7 +30,7 @@ NOTES = {
             'trusted: A0-A4; the Kani part is bounded to the listed configurations and never counted as proved'),
     'C10': ('proof', 'Verus proves the real from_buf_radix_internal (digit decoding, chunked multiply-accumulate, power-of-two radix arm, overflow exits) against the exact Ok/PosOverflow/NegOverflow/InvalidDigit/Empty contract for every buffer length, every string-level wrapper, the signed forms, from_radix_be/le with exact panic sets, and FromStr::from_str for both signs (std trait method proved as an inherent twin, option wflift).',
             'trusted: A0-A4, str::as_bytes / encode_utf8 agree (vstd); Kani harnesses are bounded cross-checks'),
-    'C11': ('proof', "Verus proves all three digit generators (to_radix_digits_le, to_bitwise_digits_le, to_inexact_bitwise_digits_le), radix_base(_half), the to_radix_le/be dispatch and the signed delegations against a canonical-numeral contract with a uniqueness lemma, unsigned to_str_radix down to the exact ASCII bytes, and the round-trip lemma against the parser's specification; signed to_str_radix: exact panic set and the exact text of every value ('-' followed by the numeral of |self| exactly when negative); the u8-digit to_radix_le including its radix-256 branch.",
+    'C11': ('proof', "Verus proves all three digit generators (to_radix_digits_le, to_bitwise_digits_le, to_inexact_bitwise_digits_le), radix_base(_half), the to_radix_le/be dispatch and the signed delegations against a canonical-numeral contract with a uniqueness lemma, unsigned to_str_radix down to the exact ASCII bytes, and the round-trip lemmas (unsigned and signed) against the parser's specification; signed to_str_radix: exact panic set and the exact text of every value ('-' followed by the numeral of |self| exactly when negative); the u8-digit to_radix_le including its radix-256 branch.",
             'trusted: A0-A4; assume_specifications for u32::is_power_of_two, <[T]>::reverse and String::from_utf8_unchecked; rewrites R18/R19 (by-value array `for` loops, `while let Some(&0)`); two trusted single-expression wrappers whose bodies are the real expressions (R23: `(&digits[0..=last]).into_iter().map(|d| *d as u8).collect()` copies the digit prefix; R24: `format!("-{}", s)` prepends a minus sign), both cross-checked by Kani harnesses'),
     'C13': ('proof', 'Verus proves, on the real bodies, generic in N and for four digit types: BTryFrom between bnum integers of the same digit type and of all 12 ordered pairs of different digit types (Ok exactly when representable, same value), every From/TryFrom between the primitive integers (incl. usize/isize), bool, char and BUint/BInt in both directions (52 functions per digit type, weakest no-panic preconditions), and from_digits/digits/from_digit/From<[digit; N]>.',
             'trusted: A0-A4, five is_negative assume_specifications; From<uN> for a signed BInt of exactly N bits reinterprets the bits - a recorded known finding: its contract states only what is true of the code (bit pattern; value when < 2^(BITS-1)) and the 12 Kani harnesses that demand more fail as KNOWN-FINDING; implicit index panics of From into a too narrow target are covered in the no-panic direction only'),
